@@ -182,7 +182,11 @@ def queue_get(it, q, *a, **k):
     if q.fields.get('interruptible'):
         if it.ctx.decide(mk_bool(it.ctx.fresh_bool('interrupted'))):
             raise PyRaise(KeyboardInterrupt, ('<operator>',))
-    msg = XStr.atom(it.ctx.fresh_name('msg'), excl='\r')
+    script = q.fields.get('script')
+    if script is not None:
+        msg = script(it, q)            # a scenario: the seat sends a message of a known family
+    else:
+        msg = XStr.atom(it.ctx.fresh_name('msg'), excl='\r')
     q.fields['gets'].items.append(msg)
     return msg
 
